@@ -11,8 +11,10 @@ import (
 // ERR when ParseFloat reports an error (value out of range).  The model asks
 // only for literals it does not decide itself (coq/model/Json.v lit_class =
 // NCOracle): values that are not integers, integers of magnitude 2^53 and up
-// below the overflow bound, and literals whose integer part has more than 800
-// digits.  Integers below 2^53 in ANY spelling (1700003600.0, 17000036e2,
+// below the overflow bound, and literals outside the digit budget of the model's
+// exact decisions: an integer part of more than 800 digits, or a non-zero
+// mantissa with an exponent of magnitude >= 10000 (there strconv does not read
+// the literal's true value, and the model follows it).  Integers below 2^53 in ANY spelling (1700003600.0, 17000036e2,
 // 1.7000036E+9), zeros, underflows and overflows never come here (the OCaml
 // handler fails if they do).  int64(f) for |f| >= 2^63 is whatever this
 // platform's conversion yields: the harness computes it the same way.
